@@ -463,6 +463,8 @@ def dec(v):
 
 def shard(ctx):
     env = get_env()
+    from vlib import repotests
+    repotests.run(ctx, 'C07', ['emit-json-state'])
     full_n = ctx.pick(6, 8)
     part_n = ctx.pick(7, 9)
     idx = 0
